@@ -61,7 +61,16 @@ def run(ctx: Ctx, rep: Report) -> None:
         rep.violated("C12-R1", enc.site(), "the v3 encode performs engine discovery and caches the result", "no `self.<cache> = await ...send_discovery_message(...)` found", key=f"{enc.key}|no-discovery")
         return
     anode = cfg_node_of(cfg, disco_assign)
-    reads = [n for n in own_nodes(enc.node) if isinstance(n, ast.Attribute) and isinstance(n.value, ast.Attribute) and norm(n.value) == f"self.{cache}" and isinstance(n.ctx, ast.Load)]
+    aliases = {name for name, vals in defs.assigns.items() if vals and all(norm(v) == f"self.{cache}" for v, _ in vals)}
+    reads = [
+        n
+        for n in own_nodes(enc.node)
+        if isinstance(n, ast.Attribute)
+        and isinstance(n.ctx, ast.Load)
+        and ((isinstance(n.value, ast.Attribute) and norm(n.value) == f"self.{cache}") or (isinstance(n.value, ast.Name) and n.value.id in aliases))
+    ]
+    # taking the alias is itself a read of the cache
+    reads += [v for name in aliases for v, _ in defs.assigns[name]]
 
     def missing_env(expr: ast.expr) -> Optional[bool]:
         txt = norm(expr)
@@ -73,7 +82,7 @@ def run(ctx: Ctx, rep: Report) -> None:
             return True
         return None
 
-    outs = simulate(cfg, missing_env)
+    outs = simulate(cfg, missing_env, expand=defs.expand)
     read_nodes = {cfg_node_of(cfg, r).id for r in reads if cfg_node_of(cfg, r) is not None}
     bad = []
     for o in outs:
@@ -113,7 +122,7 @@ def run(ctx: Ctx, rep: Report) -> None:
                 return True
             return None
 
-        outs = simulate(cfg, lambda e: empty_env(e) if empty_env(e) is not None else missing_env(e))
+        outs = simulate(cfg, lambda e: empty_env(e) if empty_env(e) is not None else missing_env(e), expand=defs.expand)
         ok = isinstance(inner, ast.Name) and inner.id == eng_param and bool(outs)
         for o in outs:
             ids = [t.id for t in o.trail]
@@ -153,7 +162,7 @@ def run(ctx: Ctx, rep: Report) -> None:
                 return True
             return None
 
-        trails = [o.trail for o in simulate(cfg, stamped_env)]
+        trails = [o.trail for o in simulate(cfg, stamped_env, expand=defs.expand)]
 
         def last_defs(name: str, at) -> List[ast.AST]:
             found = []
